@@ -25,6 +25,22 @@ def _versions():
     return [TlsProtocolVersion(m) for m in TlsVersion]
 
 
+def _versions_twins():
+    """A second, independently obtained instance of every version (parsed from its composed bytes; a deep copy when
+    the wire form is not accepted): equal to the first list member by member, but never the same object - identity
+    shortcuts in the comparison operators show only between distinct equal objects."""
+    import copy
+    from cryptoparser.tls.version import TlsProtocolVersion
+    out = []
+    for v in _versions():
+        try:
+            t = TlsProtocolVersion.parse_exact_size(bytes(v.compose()))
+        except Exception:  # noqa
+            t = copy.deepcopy(v)
+        out.append(t)
+    return out
+
+
 def _name(v):
     return v.version.name
 
@@ -77,6 +93,14 @@ def _pairs_and_triples(item):
     acc = core.Acc()
     vs = _versions()
     a = vs[i]
+    # the same pair clauses between a and an independently obtained instance of every version (b is never `a`)
+    for b in _versions_twins():
+        acc.count('transitions')
+        acc.count('twin_pairs')
+        for x, y in ((a, b), (b, a)):
+            for clause, what in check_pair(x, y):
+                acc.violation('twinpair:%s:%s/%s' % (clause, _cat(x), _cat(y)), what + ' (distinct objects)',
+                              {'kind': 'twinpair', 'a': _name(x), 'b': _name(y), 'twin_is': 'b' if x is a else 'a'})
     for b in vs:
         acc.count('transitions')
         acc.count('pairs')
@@ -168,7 +192,7 @@ def run(ctx):
                         'and not demanded: any strict total order passes']
     outcomes = len([k for k in ctx.counters if k.startswith('outcome_')])
     return ctx.finish(
-        rule='all %d members: all ordered pairs, all ordered triples, all permutations of every 3-subset via '
+        rule='all %d members: all ordered pairs (also against an independently parsed equal instance of every member), all ordered triples, all permutations of every 3-subset via '
              'sorted/min/max, full list under all rotations and reversed, set/dict membership; '
              'state = distinct (pair | sorted full list)' % n,
         distinct_outcomes=outcomes)
@@ -185,6 +209,11 @@ def replay(ctx, w):
         exp = expected_chain_lt(a, b)
         if exp is not None and bool(a < b) != exp:
             acc.violation('chain:%s/%s' % (_cat(a), _cat(b)), 'stated order violated', w)
+    elif kind == 'twinpair':
+        tw = {_name(v): v for v in _versions_twins()}
+        a, b = (vs[w['a']], tw[w['b']]) if w.get('twin_is') == 'b' else (tw[w['a']], vs[w['b']])
+        for clause, what in check_pair(a, b):
+            acc.violation('twinpair:%s:%s/%s' % (clause, _cat(a), _cat(b)), what, w)
     elif kind == 'triple':
         a, b, c = vs[w['a']], vs[w['b']], vs[w['c']]
         if a < b and b < c and not a < c:
